@@ -134,7 +134,7 @@ static void hub(const Matrix4_<T>& M, const R3& R, const std::string& src, const
 	vf::add(C_EVAL);
 	if (q.w < 0) vf::add(W_QNEG);
 	long double qn = sqrtl((long double)q.w * q.w + (long double)q.x * q.x + (long double)q.y * q.y + (long double)q.z * q.z);
-	if (!(fabsl(qn - 1) <= TOL_BACK * eps)) rep.bad("quaternion_not_unit", fmt("%s::rotation()%s of %s has norm %.12Lg (branch %d)", N<T>::m4(), via, src.c_str(), qn, br), kase);
+	if (!(fabsl(qn - 1) <= TOL_BACK * eps)) rep.bad("quaternion_not_unit", fmt("%s::rotation()%s of %s has norm 1%+.3Lg = 1%+.1Lf eps (branch %d)", N<T>::m4(), via, src.c_str(), qn - 1, (qn - 1) / eps, br), kase);
 	long double dq = dist(ref_quat(q.w, q.x, q.y, q.z), R);
 	if (!(dq <= TOL_BACK * eps)) report<T>("matrix_to_quaternion", fmt("%s::rotation()%s = (%.9g, %.9g, %.9g, %.9g) [branch %d]", N<T>::m4(), via, (double)q.w, (double)q.x, (double)q.y, (double)q.z, br), dq, TOL_BACK * eps, src, kase);
 	mx.see_lazy(sizeof(T) == 4 ? "matrix_to_quaternion.f" : "matrix_to_quaternion.d", dq / eps, [&] { return kase; });
